@@ -9,6 +9,13 @@
     (dist batches G)                 -> "(((src dst tag)…)…)"
     (dist diagnose n G)              -> "<ok|Class> (violated…) (find (r outcome)…) (verify …)"
     (dist numbertags base ((t…)…))   -> "((t k)…) next"
+    (dist partition base PROG)       -> the model's partition of PROG in the P format (names: user
+                                        names as given, generated names = base + node id)
+                                        PROG ::= (rank…)  rank ::= ((node…) ((outname node)…))
+                                        node ::= (id in name st) | (id data st) | (id recv src tag st)
+                                               | (id op st arg…) | (id send data dst tag pass)
+    (dist skeleton n G ((rank dst tag data)…))
+                                     -> per rank "((pid (needs) (recv ids) ((data (send ids))…))…)"
 
     P ::= (rank…)      rank ::= ((part…) (user…) (overall…))
     part ::= (pid (needs…) (inputs…) (outputs…) ((name src tag)…) ((name dst tag)…) pure)
@@ -16,6 +23,7 @@
 -/
 import PtModel.Sexp
 import PtModel.Dist
+import PtModel.Partition
 namespace Pt
 open Pt.Dist
 
@@ -67,6 +75,33 @@ def parseGraph : Sx → Option CommGraph
       some (⟨t.1, t.2.1, t.2.2⟩ : RecvOp)
     some ⟨ss, vs⟩
   | _ => none
+
+/-! ### programs (PtModel.Partition) -/
+
+def parseNode : Sx → Option PNode
+  | .list [i, .atom "in", nm, st] => do some ⟨← i.asNat?, .input (← nm.asNat?), (← st.asNat?) != 0⟩
+  | .list [i, .atom "data", st] => do some ⟨← i.asNat?, .data, (← st.asNat?) != 0⟩
+  | .list [i, .atom "recv", a, t, st] => do some ⟨← i.asNat?, .recv (← a.asNat?) (← t.asNat?), (← st.asNat?) != 0⟩
+  | .list (i :: .atom "op" :: st :: args) => do
+    some ⟨← i.asNat?, .op (← args.mapM Sx.asNat?), (← st.asNat?) != 0⟩
+  | .list [i, .atom "send", d, dst, t, pas] => do
+    some ⟨← i.asNat?, .send (← d.asNat?) (← dst.asNat?) (← t.asNat?) (← pas.asNat?), false⟩
+  | _ => none
+
+def parseProgram : Sx → Option Program
+  | .list ranks => ranks.mapM fun
+    | .list [.list nodes, .list outs] => do
+      some ⟨← nodes.mapM parseNode, ← outs.mapM parsePair⟩
+    | _ => none
+  | _ => none
+
+def showPartition (P : Partition) : String :=
+  "(" ++ " ".intercalate (P.map fun rp =>
+    let parts := rp.parts.map fun p =>
+      let recvs := " ".intercalate (p.recvs.map fun x => s!"({x.name} {x.src} {x.tag})")
+      let sends := " ".intercalate (p.sends.map fun x => s!"({x.name} {x.dst} {x.tag})")
+      s!"({p.pid} {showNatList p.needs} {showNatList (sortNats p.inputs)} {showNatList (sortNats p.outputs)} ({recvs}) ({sends}) 1)"
+    s!"(({" ".intercalate parts}) {showNatList (sortNats rp.user)} {showNatList rp.overall})") ++ ")"
 
 /-! ### trace checking -/
 
@@ -208,6 +243,25 @@ def handleDist : List Sx → Option String
     let find := " ".intercalate ((List.range n).map fun r => s!"({r} {showOutcome (findOutcome G n r)})")
     let ver := " ".intercalate ((verifyOutcome G).map Diag.name)
     some s!"{verdict} (violated {viol}) (find {find}) (verify {ver})"
+  | [.atom "skeleton", n, g, .list datas] => do
+    -- datas: ((rank dst tag data)…) — node index of the array each send sends
+    let G ← parseGraph g
+    let n ← n.asNat?
+    let ds ← datas.mapM fun
+      | .list [a, b, c, d] => do some ((⟨← a.asNat?, ← b.asNat?, ← c.asNat?⟩ : CommId), ← d.asNat?)
+      | _ => none
+    let dataOf : CommId → Nat := fun c => match ds.find? (fun x => x.1 == c) with
+      | some x => x.2
+      | none => 0
+    let showIds := fun (l : List CommId) => "(" ++ " ".intercalate (l.map showId) ++ ")"
+    let ranks := (skeleton n G).map fun parts =>
+      "(" ++ " ".intercalate (parts.zipIdx.map fun (p, pid) =>
+        let groups := (groupSends dataOf p.sends).map fun (d, l) => s!"({d} {showIds l})"
+        s!"({pid} {showNatList (chainNeeds pid)} {showIds p.recvs} ({" ".intercalate groups}))") ++ ")"
+    some ("(" ++ " ".intercalate ranks ++ ")")
+  | [.atom "partition", base, prog] => do
+    let p ← parseProgram prog
+    some (showPartition (partitionOf (← base.asNat?) p))
   | [.atom "numbertags", base, .list ranks] => do
     let base ← base.asNat?
     let gathered ← ranks.mapM Sx.asNats?
